@@ -92,6 +92,15 @@ func (l loopSpec) sources() (plain, twin string) {
 	T := l.ty()
 	fmt.Fprintf(&pl, "func %s(a %s, b %s) int {\n\tt := 0\n", l.Name, T, T)
 	fmt.Fprintf(&tw, "func %s(a0 int, b0 int) (int, []int) {\n\ta, b := %s(a0), %s(b0)\n\t_, _ = a, b\n\tt := 0\n\tbodies := 0\n\tvar hdr []int\n\tguard := 0\n", l.Name, T, T)
+	if strings.Contains(l.Start+l.Limit, "lo") {
+		v := map[string]string{"uint8": "100, 200", "int8": "100, 100", "uint16": "40000, 50000", "int32": "2000000000, 2000000000"}[l.Ty]
+		if v == "" {
+			v = "100, 200"
+		}
+		decl := fmt.Sprintf("\tvar lo, hi %s = %s\n", T, v)
+		pl.WriteString(decl)
+		tw.WriteString(decl)
+	}
 	ind := "\t"
 	if l.Sibling {
 		sib := "\tfor j := 0; j < 3; j++ {\n\t\tt += j * 2\n\t}\n"
@@ -203,7 +212,14 @@ func genLoopSpec(r *Rng, idx int) loopSpec {
 		}
 		if r.Chance(25) {
 			// a COMPUTED bound: the addition / subtraction wraps around in the program
-			if r.Bool() {
+			if r.Chance(30) {
+				// computed from constant-valued locals only: whatever folds constants must fold them on the
+				// counter's own type ((100 + 200) / 2 on a uint8 is 22, not 150)
+				l.Start, l.Limit = "(lo + hi) / 2", "hi"
+				if l.Step < 0 {
+					l.Start, l.Limit = "hi", "(lo + hi) / 2"
+				}
+			} else if r.Bool() {
 				l.Start = "a + " + pick(r, map[string][]string{"uint8": {"100", "56"}, "int8": {"100", "28"}, "uint16": {"36", "65000"}, "int32": {"48", "2147483000"}}[l.Ty])
 			} else {
 				l.Limit = "b - " + pick(r, []string{"1", "3", "7"})
@@ -311,6 +327,58 @@ func evalSCEV(s loop.SCEV, env map[ssa.Value]*big.Int) (*big.Int, bool) {
 		return b, true
 	}
 	return nil, false
+}
+
+// evalSCEVTyped evaluates a SCEV tree the way the PROGRAM computes the expression it stands for: on
+// the counter's own type, wrapping after every operation.  For + - * that equals wrapping once at the
+// end; for a division it does not ((100 + 200) / 2 on a uint8 is 22, not 150).
+func evalSCEVTyped(s loop.SCEV, env map[ssa.Value]*big.Int, ty string) (*big.Int, bool) {
+	if ty == "" || ty == "int" {
+		return evalSCEV(s, env)
+	}
+	w := func(x *big.Int) *big.Int {
+		if ty == "uint64" || ty == "Addr" || ty == "Off" {
+			return new(big.Int).SetUint64(uint64(low64(x)))
+		}
+		return big.NewInt(wrapTo(ty, low64(x)))
+	}
+	switch x := s.(type) {
+	case *loop.SCEVGenericExpr:
+		a, ok1 := evalSCEVTyped(x.X, env, ty)
+		b, ok2 := evalSCEVTyped(x.Y, env, ty)
+		if !ok1 || !ok2 {
+			return nil, false
+		}
+		switch x.Op {
+		case token.ADD:
+			return w(new(big.Int).Add(a, b)), true
+		case token.SUB:
+			return w(new(big.Int).Sub(a, b)), true
+		case token.MUL:
+			return w(new(big.Int).Mul(a, b)), true
+		case token.QUO:
+			if b.Sign() == 0 {
+				return nil, false
+			}
+			return w(new(big.Int).Quo(a, b)), true
+		}
+		return nil, false
+	case *loop.SCEVMax:
+		a, ok1 := evalSCEVTyped(x.X, env, ty)
+		b, ok2 := evalSCEVTyped(x.Y, env, ty)
+		if !ok1 || !ok2 {
+			return nil, false
+		}
+		if a.Cmp(b) > 0 {
+			return a, true
+		}
+		return b, true
+	}
+	v, ok := evalSCEV(s, env)
+	if !ok {
+		return nil, false
+	}
+	return w(v), true
 }
 
 func suiteLoops(c *Ctx) error {
@@ -451,7 +519,7 @@ func suiteLoops(c *Ctx) error {
 				if iv.Type != loop.IVTypeBasic {
 					continue
 				}
-				s0, ok1 := evalSCEV(iv.Start, env)
+				s0, ok1 := evalSCEVTyped(iv.Start, env, l.Ty) // the start EXPRESSION, computed as the program computes it
 				st, ok2 := evalSCEV(iv.Step, env)
 				if !ok1 || !ok2 || len(ob.hdr) == 0 {
 					continue
